@@ -132,10 +132,6 @@ func addDecimals(receiver object.Object, objType object.ObjectType, args ...obje
 		val = receiver.(*object.Int).String()
 	}
 
-	if !utils.StrIsInt(val) {
-		return &object.Str{Value: val}, nil
-	}
-
 	separator := "."
 	decimals := 2
 
@@ -164,6 +160,10 @@ func addDecimals(receiver object.Object, objType object.ObjectType, args ...obje
 		}
 
 		decimals = int(decimalArg.Value)
+	}
+
+	if !utils.StrIsInt(val) {
+		return &object.Str{Value: val}, nil
 	}
 
 	if decimals <= 0 {
